@@ -237,7 +237,8 @@ def c35_problems(o):
 
 def c13_problems(o):
     bad = []
-    failing = o["site"] in ("task._run", "Outputs._from_job", "record_error")
+    executed = not (o["precached"] and not o["rerun"]) or o["site"] == "task._run"
+    failing = o["site"] in ("task._run", "Outputs._from_job", "record_error") and executed
     if failing:
         if o["raised"] is None:
             bad.append("failure-not-reported")
